@@ -12,7 +12,9 @@ import (
 	connectiontypes "github.com/cosmos/ibc-go/v11/modules/core/03-connection/types"
 	channeltypes "github.com/cosmos/ibc-go/v11/modules/core/04-channel/types"
 	channeltypesv2 "github.com/cosmos/ibc-go/v11/modules/core/04-channel/v2/types"
+	ibcexported "github.com/cosmos/ibc-go/v11/modules/core/exported"
 	ibctm "github.com/cosmos/ibc-go/v11/modules/light-clients/07-tendermint"
+	localhost "github.com/cosmos/ibc-go/v11/modules/light-clients/09-localhost"
 	ibctesting "github.com/cosmos/ibc-go/v11/testing"
 	mockv2 "github.com/cosmos/ibc-go/v11/testing/mock/v2"
 
@@ -21,6 +23,7 @@ import (
 
 // sent packets the relayer knows about
 type pkt1 struct {
+	loop  bool // sent over a localhost channel: source and destination are the same chain
 	src   int // chain index of the sender
 	p     channeltypes.Packet
 	ord   bool
@@ -113,6 +116,7 @@ func (w *W) initConfig() map[string]any {
 			"ver": hx.U(uint64(c.App.LastBlockHeight()))})
 	}
 	cfg["chains"] = chains
+	cfg["lh"] = w.ids.id(ibcexported.LocalhostClientID)
 	sc := []any{}
 	for _, k := range w.dataKeys() {
 		b := w.script[k]
@@ -372,6 +376,9 @@ func (h *hist) mutate1(p channeltypes.Packet) channeltypes.Packet {
 }
 
 func (h *hist) recv1(k *pkt1, mutate bool) {
+	if k == nil {
+		return
+	}
 	w := h.w
 	dst := 1 - k.src
 	p := k.p
@@ -416,6 +423,9 @@ func (h *hist) recv1(k *pkt1, mutate bool) {
 }
 
 func (h *hist) ack1(k *pkt1, mutate bool) {
+	if k == nil {
+		return
+	}
 	w := h.w
 	src := k.src
 	p := k.p
@@ -460,6 +470,9 @@ func (h *hist) ack1(k *pkt1, mutate bool) {
 }
 
 func (h *hist) timeout1(k *pkt1, mutate, onClose bool) {
+	if k == nil {
+		return
+	}
 	w := h.w
 	src := k.src
 	p := k.p
@@ -520,6 +533,9 @@ func (h *hist) timeout1(k *pkt1, mutate, onClose bool) {
 }
 
 func (h *hist) asyncAck1(k *pkt1) {
+	if k == nil {
+		return
+	}
 	w := h.w
 	dst := 1 - k.src
 	ack := []byte("async-ack-1")
@@ -774,6 +790,10 @@ func runHistory(w *W, nops int) {
 	r := w.r
 	frozen := false
 	for i := 0; i < nops; i++ {
+		if r.Chance(1, 7) {
+			h.lhOp()
+			continue
+		}
 		x := r.Intn(100)
 		switch {
 		case x < 22: // send
@@ -856,8 +876,12 @@ func (h *hist) fresh(ci int, clientID string) {
 }
 
 func (h *hist) pick1(pref func(*pkt1) bool) *pkt1 {
-	var c []*pkt1
+	var c, all []*pkt1
 	for _, k := range h.p1 {
+		if k.loop {
+			continue
+		}
+		all = append(all, k)
 		if pref(k) {
 			c = append(c, k)
 		}
@@ -865,7 +889,10 @@ func (h *hist) pick1(pref func(*pkt1) bool) *pkt1 {
 	if len(c) > 0 && h.w.r.Chance(4, 5) {
 		return c[h.w.r.Intn(len(c))]
 	}
-	return h.p1[h.w.r.Intn(len(h.p1))]
+	if len(all) == 0 {
+		return nil
+	}
+	return all[h.w.r.Intn(len(all))]
 }
 
 func (h *hist) pick2(pref func(*pkt2) bool) *pkt2 {
@@ -882,3 +909,163 @@ func (h *hist) pick2(pref func(*pkt2) bool) *pkt2 {
 }
 
 var _ = fmt.Sprintf
+
+// ---------------------------------------------------------------------------------------------
+// localhost (loopback) channels: both ends live on the same chain, proofs are the sentinel
+
+func (h *hist) lhProof(ci int, mutate bool) ([]byte, map[string]any, clienttypes.Height) {
+	w := h.w
+	self, _ := w.begin(ci)
+	ph := clienttypes.ZeroHeight()
+	switch w.r.Intn(6) {
+	case 0:
+		ph = self
+	case 1:
+		ph = clienttypes.NewHeight(self.RevisionNumber, self.RevisionHeight+1)
+	case 2:
+		ph = clienttypes.NewHeight(self.RevisionNumber, self.RevisionHeight+5000)
+	case 3:
+		ph = clienttypes.NewHeight(self.RevisionNumber+1, 1)
+	case 4:
+		ph = clienttypes.NewHeight(self.RevisionNumber, self.RevisionHeight-1)
+	}
+	if mutate && w.r.Chance(1, 3) {
+		p, d := w.garbage()
+		return p, d, ph
+	}
+	return localhost.SentinelProof, map[string]any{"tag": "sentinel"}, ph
+}
+
+func (h *hist) lhSend(ci int, ordered bool) {
+	w := h.w
+	o := 0
+	if ordered {
+		o = 1
+	}
+	end := w.r.Intn(2)
+	ch, cp := w.lhChan[ci][o][end], w.lhChan[ci][o][1-end]
+	self, now := w.begin(ci)
+	var th clienttypes.Height
+	var tt uint64
+	switch w.r.Intn(6) {
+	case 0:
+		th = clienttypes.NewHeight(self.RevisionNumber, self.RevisionHeight+uint64(1+w.r.Intn(4)))
+	case 1:
+		tt = now + uint64(1+w.r.Intn(20))*uint64(time.Second)
+	case 2:
+		th = clienttypes.NewHeight(self.RevisionNumber, self.RevisionHeight+1000)
+		tt = now + uint64(5*time.Second)
+	default:
+		th = clienttypes.NewHeight(self.RevisionNumber, self.RevisionHeight+1000)
+	}
+	data := []byte(h.pickData())
+	port := ibctesting.MockPort
+	var seq uint64
+	w.p1desc(channeltypes.NewPacket(data, 1, port, ch, port, cp, th, tt))
+	op := map[string]any{"k": "send1", "port": w.ids.id(port), "chan": w.ids.id(ch), "th": hj(th), "tt": hx.U(tt), "data": w.dataID(data)}
+	out := w.direct(ci, op, func(ctx sdk.Context) error {
+		var err error
+		seq, err = w.ch[ci].App.GetIBCKeeper().ChannelKeeper.SendPacket(ctx, port, ch, th, tt, data)
+		return err
+	})
+	if out == "ok" {
+		p := channeltypes.NewPacket(data, seq, port, ch, port, cp, th, tt)
+		h.p1 = append(h.p1, &pkt1{loop: true, src: ci, p: p, ord: ordered})
+		if seq > w.maxSeq {
+			w.maxSeq = seq
+		}
+		w.steps[len(w.steps)-1]["ret_seq"] = hx.U(seq)
+	}
+}
+
+func (h *hist) lhRelay(k *pkt1, what string, mutate bool) {
+	w := h.w
+	ci := k.src
+	p := k.p
+	if mutate && w.r.Bool() {
+		p = h.mutate1(p)
+	}
+	proof, pd, ph := h.lhProof(ci, mutate)
+	signer := w.signer(ci)
+	var msg sdk.Msg
+	var op map[string]any
+	switch what {
+	case "recv":
+		w.noteAck1(w.script[string(p.Data)].Ack)
+		msg = channeltypes.NewMsgRecvPacket(p, proof, ph, signer)
+		op = map[string]any{"k": "recv1", "p": w.p1desc(p), "ph": hj(ph), "proof": pd, "relayer": 7}
+	case "ack":
+		ack := k.ack
+		if ack == nil || (mutate && w.r.Chance(1, 3)) {
+			ack = []byte("forged-ack")
+		}
+		w.noteAck1(ack)
+		msg = channeltypes.NewMsgAcknowledgement(p, ack, proof, ph, signer)
+		op = map[string]any{"k": "ack1", "p": w.p1desc(p), "ack": w.ackID(ack), "noncanon": false, "ph": hj(ph), "proof": pd, "relayer": 7}
+	default:
+		nsr := uint64(1)
+		if k.ord {
+			if n, ok := w.ch[ci].App.GetIBCKeeper().ChannelKeeper.GetNextSequenceRecv(w.ch[ci].GetContext(), p.DestinationPort, p.DestinationChannel); ok {
+				nsr = n
+			}
+		}
+		msg = channeltypes.NewMsgTimeout(p, nsr, proof, ph, signer)
+		op = map[string]any{"k": "timeout1", "p": w.p1desc(p), "ph": hj(ph), "nsr": hx.U(nsr), "proof": pd, "relayer": 7}
+	}
+	run := func() {
+		out, _ := w.tx(ci, op, respIsNoop, msg)
+		if out == "ok" {
+			switch what {
+			case "recv":
+				k.recvd = true
+				if b := w.script[string(p.Data)]; b.Recv != "async" {
+					k.ack = b.Ack
+				}
+			default:
+				k.done = true
+			}
+		}
+	}
+	run()
+	h.replay = append(h.replay, run)
+}
+
+func (h *hist) pickLoop(pref func(*pkt1) bool) *pkt1 {
+	var all, c []*pkt1
+	for _, k := range h.p1 {
+		if k.loop {
+			all = append(all, k)
+			if pref(k) {
+				c = append(c, k)
+			}
+		}
+	}
+	if len(c) > 0 && h.w.r.Chance(4, 5) {
+		return c[h.w.r.Intn(len(c))]
+	}
+	if len(all) == 0 {
+		return nil
+	}
+	return all[h.w.r.Intn(len(all))]
+}
+
+// lhOp performs one random loopback operation.
+func (h *hist) lhOp() {
+	w := h.w
+	switch x := w.r.Intn(10); {
+	case x < 3:
+		h.lhSend(w.r.Intn(2), w.r.Chance(1, 3))
+	case x < 6:
+		if k := h.pickLoop(func(k *pkt1) bool { return !k.recvd && !k.done }); k != nil {
+			h.lhRelay(k, "recv", w.r.Chance(1, 4))
+		}
+	case x < 8:
+		if k := h.pickLoop(func(k *pkt1) bool { return k.recvd && k.ack != nil && !k.done }); k != nil {
+			h.lhRelay(k, "ack", w.r.Chance(1, 4))
+		}
+	default:
+		if k := h.pickLoop(func(k *pkt1) bool { return !k.recvd && !k.done }); k != nil {
+			h.lhRelay(k, "timeout", w.r.Chance(1, 5))
+		}
+	}
+}
